@@ -293,6 +293,10 @@ func (j *Job) evaluateClusterStatus() {
 func (j *Job) start() error {
 	j.log.Info("starting")
 
+	// A checkpoint that the previous assembly left unfinished can't complete
+	// anymore and would block every new checkpoint.
+	j.snapshotStore.AbandonPendingCheckpoint()
+
 	// Get the job's current checkpoint which may be nil
 	ckpt := j.snapshotStore.CurrentCheckpoint()
 
